@@ -988,10 +988,209 @@ func genXRef(R *rand.Rand) modelCase {
 	return modelCase{Line: line, Run: run, NonTrivial: true, Class: "X"}
 }
 
+// D: a typed decoder that decodes its children through nested pdf.Decode calls.
+type dnodeT struct{}
+
+func decodeNode(c pdf.Cursor, obj pdf.Object, _ bool) (*dnodeT, error) {
+	d, _ := obj.(pdf.Dict)
+	kids, _ := d["Kids"].(pdf.Array)
+	for _, k := range kids {
+		if _, err := pdf.Decode(c, k, decodeNode); err != nil {
+			return nil, err
+		}
+	}
+	return &dnodeT{}, nil
+}
+
+func genDecode(R *rand.Rand) modelCase {
+	n := 2 + R.IntN(10)
+	long := R.IntN(8) == 0
+	if long {
+		n = 250 + R.IntN(20)
+	}
+	g := newGetter(1, 100000)
+	var sb strings.Builder
+	fmt.Fprintf(&sb, "D 1 %d", n)
+	for i := 1; i <= n; i++ {
+		var tok string
+		x := R.IntN(12)
+		if long {
+			x = 4 + R.IntN(2)*4 // alternate alias and single-kid nodes along the chain
+			if i == n {
+				x = []int{1, 4, 8}[R.IntN(3)]
+			}
+		}
+		target := func() int {
+			if long {
+				if i == n {
+					return []int{1, n, n + 1, n / 2}[R.IntN(4)]
+				}
+				return i + 1
+			}
+			return 1 + R.IntN(n+2)
+		}
+		switch {
+		case x == 0:
+			tok = "e"
+			g.errs[uint32(i)] = errIO
+		case x == 1:
+			tok = "n"
+		case x == 2:
+			tok = "m"
+			g.errs[uint32(i)] = &pdf.MalformedFileError{Err: errors.New("verif")}
+		case x < 6: // alias
+			t := target()
+			tok = "r" + strconv.Itoa(t)
+			g.objs[uint32(i)] = ref(t)
+		default: // a node with children
+			nk := 1 + R.IntN(3)
+			if long {
+				nk = 1
+			}
+			arr := pdf.Array{}
+			tok = "k"
+			for j := 0; j < nk; j++ {
+				t := target()
+				arr = append(arr, ref(t))
+				tok += ":" + strconv.Itoa(t)
+			}
+			g.objs[uint32(i)] = pdf.Dict{"Kids": arr}
+		}
+		fmt.Fprintf(&sb, " %d %s", i, tok)
+	}
+	run := func() (string, []violation) {
+		g.log = nil
+		g.over = false
+		x := pdf.NewExtractor(g)
+		_, err := pdf.Decode(pdf.CursorAt(x, nil), ref(1), decodeNode)
+		gets := len(g.log)
+		var viol []violation
+		if g.over {
+			viol = append(viol, violation{"walker-get-budget-exceeded", "the typed decoder exceeded its Get budget"})
+		}
+		var ie *ioErr
+		switch {
+		case errors.Is(err, pdf.ErrCycle):
+			return fmt.Sprintf("cycle %d", gets), viol
+		case errors.Is(err, pdf.ErrDepth):
+			return fmt.Sprintf("depth %d", gets), viol
+		case errors.As(err, &ie):
+			return fmt.Sprintf("io1 %d", gets), viol
+		case pdf.IsMalformed(err):
+			return fmt.Sprintf("mal %d", gets), viol
+		case err != nil:
+			return fmt.Sprintf("other %d", gets), viol
+		default:
+			return fmt.Sprintf("ok %d", gets), viol
+		}
+	}
+	return modelCase{Line: sb.String(), Run: run, NonTrivial: true, Class: "D"}
+}
+
+// N: nesting depth of the object scanner.  Token strings over a (scalar),
+// n (name), [ ] < > (for << >>), written out as the value of object 5.
+func genNest(R *rand.Rand) modelCase {
+	var toks []byte
+	switch R.IntN(4) {
+	case 0: // token soup
+		for k := R.IntN(14); k > 0; k-- {
+			toks = append(toks, "aan[]<>[<n"[R.IntN(10)])
+		}
+	default: // a tower around the limit, closed properly or almost
+		depth := []int{1, 2, 5, 100, 250, 254, 255, 256, 257, 258, 300}[R.IntN(11)]
+		var closers []byte
+		for i := 0; i < depth; i++ {
+			if R.IntN(2) == 0 {
+				toks = append(toks, '[')
+				closers = append(closers, ']')
+				if R.IntN(4) == 0 {
+					toks = append(toks, 'a')
+				}
+			} else {
+				toks = append(toks, '<', 'n')
+				closers = append(closers, '>')
+			}
+		}
+		if len(closers) > 0 && closers[len(closers)-1] == '>' || R.IntN(2) == 0 {
+			toks = append(toks, "an"[R.IntN(2)])
+		}
+		for i := len(closers) - 1; i >= 0; i-- {
+			c := closers[i]
+			if R.IntN(400) == 0 {
+				c = "]>a"[R.IntN(3)]
+			}
+			toks = append(toks, c)
+			if c == ']' && R.IntN(8) == 0 && i > 0 && closers[i-1] == ']' {
+				toks = append(toks, 'n') // one more element of the enclosing array
+			}
+		}
+		if R.IntN(10) == 0 {
+			toks = append(toks, 'a')
+		}
+	}
+	var text strings.Builder
+	for _, t := range toks {
+		switch t {
+		case 'a':
+			text.WriteString([]string{"(s)", "true", "null", "1.5", "<AB>"}[R.IntN(5)])
+		case 'n':
+			text.WriteString("/K")
+		case '[':
+			text.WriteString("[")
+		case ']':
+			text.WriteString("]")
+		case '<':
+			text.WriteString("<<")
+		case '>':
+			text.WriteString(">>")
+		}
+		text.WriteByte(" \n"[R.IntN(2)])
+	}
+	file := simpleFile(map[int]string{
+		1: "<< /Type /Catalog /Pages 2 0 R >>", 2: "<< /Type /Pages /Kids [] /Count 0 >>", 5: text.String()}, 1, "")
+	ts := string(toks)
+	if ts == "" {
+		ts = "-"
+	}
+	run := func() (string, []violation) {
+		r, err := pdf.NewReader(bytes.NewReader(file), int64(len(file)), &pdf.ReaderOptions{ErrorHandling: pdf.ErrorHandlingStop})
+		if err != nil {
+			return "open-failed", nil
+		}
+		defer r.Close()
+		_, err = r.Get(ref(5), true)
+		// the deepest point of the token string
+		depth, deepest := 0, 0
+		for _, t := range toks {
+			switch t {
+			case '[', '<':
+				depth++
+				if depth > deepest {
+					deepest = depth
+				}
+			case ']', '>':
+				depth--
+			}
+		}
+		switch {
+		case err == nil && deepest > 256:
+			return "ok", []violation{{"nesting-depth-cap-exceeded",
+				fmt.Sprintf("an object with %d nested containers was accepted (maxScannerNestDepth is 256)", deepest)}}
+		case err == nil:
+			return "ok", nil
+		case pdf.IsMalformed(err):
+			return "mal", nil
+		default:
+			return "other", nil
+		}
+	}
+	return modelCase{Line: "N " + ts, Run: run, NonTrivial: len(toks) > 200, Class: "N"}
+}
+
 var families = []struct {
 	name string
 	gen  func(R *rand.Rand) modelCase
 }{
 	{"S", genScan}, {"P", genPrev}, {"R", genResolve}, {"W", genPages}, {"T", genTree}, {"O", genOutline}, {"X", genXRef},
-	{"G", genObjStm},
+	{"G", genObjStm}, {"N", genNest}, {"J", genIndex}, {"D", genDecode},
 }
